@@ -1,3 +1,4 @@
+import AnsiModel.Generated.Methods.IaddCore
 import AnsiProofs.Props.C07c
 import AnsiProofs.Lemmas.Concat
 
